@@ -1819,6 +1819,34 @@ SELECT_HEADER = ("From Coq Require Import ZArith List Bool.\nFrom Leaspy Require
                  "State.StateNdExec.\nImport ListNotations.\nOpen Scope Z_scope.\nOpen Scope nat_scope.\n")
 SELECT_CASE_TYPE = "nmask * nval * nval * option nval * bool"
 SELECT_SIG = "partial-revert:nd-selection-differs-from-documented-rows"
+# finding: `_select` gives the rows of a side that has NO weight (plain tensor / WeightedTensor(weight=None)) the OTHER side's weight
+ONE_SIDED_SIG = "partial-revert:side-without-weight-takes-the-other-sides-weight"
+
+
+def one_sided_trace(case, observed):
+    """a call torch accepts in which one side has weights and the other has none, shapes and mask otherwise inside the contract: the entries
+    taken from the side WITHOUT weight (all of them valid there) whose weight in the result is 0 — they are masked by the weight of the
+    side they were NOT taken from.  Returns the list of such index paths (empty: nothing to report)."""
+    ko, kc = nest_kind(case["old"]), nest_kind(case["cur"])
+    if (ko == "weighted") == (kc == "weighted") or observed is None or observed.get("w") is None:
+        return []
+    so, sc = nest_shape(case["old"].get("t", case["old"].get("v"))), nest_shape(case["cur"].get("t", case["cur"].get("v")))
+    if so != sc or not so or so[0 if case["rb"] else -1] != len(case["mask"]):
+        return []
+    from_old_has_none = ko != "weighted"
+    out = []
+
+    def walk(w, path):
+        if isinstance(w, list):
+            for i, x in enumerate(w):
+                walk(x, path + [i])
+            return
+        pos = path[0] if case["rb"] else path[-1]
+        taken_from_old = bool(case["mask"][pos])
+        if taken_from_old == from_old_has_none and w == 0:
+            out.append(path)
+    walk(observed["w"], [])
+    return out
 
 
 def select_case_coq(case, observed):
@@ -1841,6 +1869,16 @@ def directed_select(run):
         run.count("nd_select", f"shape {tuple(shape)}, right_broadcasting={c['rb']}: {key}")
         run.case(("nd-select", json_key(c)), nontrivial=len(shape) >= 2 or nest_kind(c["old"]) != "plain")
         coq.append(select_case_coq(c, observed))
+        masked = one_sided_trace(c, observed)
+        if masked:
+            run.count("nd_select", "one side without weight: valid entries masked by the other side's weight")
+            run.fail(ONE_SIDED_SIG, "revert(subset) on a value that is a WeightedTensor WITH weights on one side and has no weight on the other "
+                     "(plain tensor or WeightedTensor(weight=None): every entry valid): `_select` (state.py:52-53) gives the rows taken from the side "
+                     "without weight the weight of the OTHER side, so a reverted (or kept) row is not what it was: entries that were valid now have "
+                     "weight 0, `weighted_value` and every cached value derived from it differ from the from-scratch evaluation "
+                     "(Coq witness: C02_one_sided_weight_refuted)", dict(select=c),
+                     expected="the entries taken from the side without weight stay valid (weight 1 / True)",
+                     observed=dict(value=observed, entries_masked_by_the_other_sides_weight=masked[:6]))
         if inside:
             ref = select_reference(c["old"], c["cur"], c["mask"], c["rb"])
             got = None if observed is None else {k: observed.get(k) for k in ref}
